@@ -228,7 +228,7 @@ PROFILES = [("mixed", 30), ("net", 25), ("imm", 12), ("tm", 15), ("status", 18)]
 
 
 def gen_events(rng, tier, mult):
-    n = (600 if tier == "quick" else 9000) * mult
+    n = (4000 if tier == "quick" else 60000) * mult
     cases = []
     for ci in range(n):
         r = rng.fork("e%d" % ci)
